@@ -132,3 +132,21 @@ Proof.
   induction l as [| y r IH]; intros k x H; destruct k; simpl in *; try contradiction; try assumption.
   right. eapply IH; eauto.
 Qed.
+
+Lemma dkeys_present : forall d k, In k (dkeys d) -> dget d k <> None.
+Proof. intros d k H E. apply dget_none_notin in E. contradiction. Qed.
+
+Lemma select_from_incl : forall keys skip frac k, In k (select_from keys skip frac) -> In k keys.
+Proof.
+  induction keys as [| x r IH]; intros skip frac k H; simpl in *; [contradiction |].
+  destruct skip as [| n].
+  - destruct H as [H | H]; [now left | right; eapply IH; eauto].
+  - right. eapply IH; eauto.
+Qed.
+Lemma select_from_nodup : forall keys skip frac, NoDup keys -> NoDup (select_from keys skip frac).
+Proof.
+  induction keys as [| x r IH]; intros skip frac H; simpl; [constructor |].
+  inversion H; subst. destruct skip as [| n].
+  - constructor; [| now apply IH]. intros E. apply H2. eapply select_from_incl; eauto.
+  - now apply IH.
+Qed.
